@@ -293,7 +293,7 @@ def install_fixer_probe():
             if c is not None:
                 c.depth += 1
                 try:
-                    c.ctl.out("sim", "fixer %s\n" % self.unique_id)
+                    c.ctl.out("sim", "fixer %s %s\n" % (self.unique_id, getattr(oFile, "filename", "?")))
                 finally:
                     c.depth -= 1
         return r
